@@ -540,6 +540,45 @@ def check(ctx):
                           'inserted before the second extension marker shift the tags of the components after it, and BER / DER encodings of one version are rejected by the other '
                           '(DecodeTagError) -- X.680 25.7 numbers the extension root first' % (bad7[0], bad7[1], bad7[2], ', '.join(bad7[3])), stmt='automatic tags in textual order')
 
+    # ---- R8: the length that precedes an extension addition (an open type) is how an older version skips an addition it does not know: it must be the number of octets the
+    #      addition's encoder has written.  An encoder that moves written bits out of its accumulator (a list of chunks, a second counter) reports them in number_of_bytes(),
+    #      or the length is too small as soon as an addition is larger than one chunk.
+    ctx.rule('C07.R8', 'Encoder.number_of_bytes() (the open-type length of an addition) accounts for every place the encoder keeps written bits in')
+    n8 = 0
+    for codec8 in ('per', 'oer'):
+        ecls = model.mod(RELS[codec8]).classes.get('Encoder')
+        nb = ecls.methods.get('number_of_bytes') if ecls else None
+        if nb is None:
+            continue
+        n8 += 1
+        # where bits go when the accumulator is emptied while appending: self.<acc> = 0 next to self.<store>.append(..) / self.<counter> += ..
+        spill = set()
+        for g_ in ecls.methods.values():
+            if g_.name in ('__init__', 'reset'):
+                continue
+            zeroed = [a_ for a_ in walk_no_nested(g_) if isinstance(a_, ast.Assign) and isinstance(a_.value, ast.Constant) and a_.value.value == 0
+                      and any(isinstance(t_, ast.Attribute) and isinstance(t_.value, ast.Name) and t_.value.id == 'self' and t_.attr == 'number_of_bits' for t_ in a_.targets)]
+            if not zeroed:
+                continue
+            for x_ in walk_no_nested(g_):
+                if isinstance(x_, ast.Call) and isinstance(x_.func, ast.Attribute) and x_.func.attr in ('append', 'extend') and isinstance(x_.func.value, ast.Attribute) \
+                        and isinstance(x_.func.value.value, ast.Name) and x_.func.value.value.id == 'self':
+                    spill.add(x_.func.value.attr)
+                if isinstance(x_, ast.AugAssign) and isinstance(x_.op, ast.Add) and isinstance(x_.target, ast.Attribute) and isinstance(x_.target.value, ast.Name) \
+                        and x_.target.value.id == 'self' and x_.target.attr != 'number_of_bits':
+                    spill.add(x_.target.attr)
+        mentioned = {y_.attr for y_ in walk_no_nested(nb) if isinstance(y_, ast.Attribute) and isinstance(y_.value, ast.Name) and y_.value.id == 'self'}
+        ok8 = not spill or bool(spill & mentioned)
+        ctx.instance('C07.R8', '%s.Encoder.number_of_bytes reads %s; written bits are also kept in %s' % (codec8, sorted(mentioned), sorted(spill) or 'nothing else'),
+                     'ok' if ok8 else 'VIOLATION', node=nb, file=RELS[codec8])
+        if not ok8:
+            ctx.violation('C07.R8', RELS[codec8], nb, Model.qual(nb),
+                          'the encoder moves written bits out of its accumulator into %s, and number_of_bytes() counts the accumulator only: the open-type length written before an extension '
+                          'addition larger than one chunk is too small, so a version that does not know the addition skips too little and decodes the following components from the '
+                          'middle of it' % sorted(spill), stmt='open-type length ignores spilled bits')
+    if n8 < 2:
+        raise AnalysisError('C07.R8 found only %d Encoder.number_of_bytes methods' % n8)
+
 PER = RELS['per']
 OER = RELS['oer']
 XER = RELS['xer']
